@@ -122,20 +122,65 @@ type typedefStmt struct {
 }
 
 type renderer struct {
-	typedefs map[string][]typedefStmt // module -> typedef statements
-	memo     map[string]string        // (module, scope, built-in, levels so far) -> typedef name
-	cnt      map[string]int           // module -> typedefs named so far
+	typedefs map[string][]typedefStmt   // module -> typedef statements
+	memo     map[string]string          // (module, scope, naming, link spelling, referenced type, built-in, levels so far) -> typedef name
+	cnt      map[string]int             // module -> typedefs numbered so far ("" = over all modules)
+	taken    map[string]map[string]bool // module -> typedef names in use
 }
 
-func ref(ctxMod, m, n string) string {
-	if m == ctxMod {
+// layout says where the typedefs of a chain are written and how they are named and referred to.  The meaning of a
+// chain does not depend on it (the specification never looks inside).
+//
+//	top                          every typedef at module level of the module that holds the type statement
+//	local                        every typedef inside the container of the leaf
+//	xmod                         = xm-1-same-bare
+//	xm-<s>-<naming>-<spelling>   the s innermost typedefs in module a, the others (and the type statement) in module
+//	                             b; naming: same = typedefs are numbered per module (a:t1 and b:t1 are different
+//	                             types with one local name), mirror = the typedefs of module b take the local names
+//	                             of those of module a in reverse order (b:t2 <- b:t1 <- a:t1 <- a:t2 ...), uniq = no
+//	                             local name occurs twice; spelling of a reference inside one module: bare (t1) or
+//	                             own (with the module's own prefix, a:t1); a reference into the other module always
+//	                             carries the prefix
+type layout struct {
+	split  int
+	naming string
+	own    bool
+	local  bool
+	bad    bool
+	// the type statement itself stands in a submodule: whatever it refers to carries the prefix (belongs-to prefix)
+	sub bool
+}
+
+func parseLay(lay string) layout {
+	switch lay {
+	case "", "top":
+		return layout{naming: "same"}
+	case "local":
+		return layout{naming: "same", local: true}
+	case "xmod":
+		return layout{split: 1, naming: "same"}
+	}
+	f := strings.Split(lay, "-")
+	lo := layout{naming: "same", bad: true}
+	if len(f) == 4 && f[0] == "xm" && len(f[1]) == 1 && f[1][0] >= '0' && f[1][0] <= '9' {
+		lo.split = int(f[1][0] - '0')
+		lo.naming = f[2]
+		lo.own = f[3] == "own"
+		lo.bad = !(f[2] == "same" || f[2] == "mirror" || f[2] == "uniq") || !(f[3] == "own" || f[3] == "bare")
+	}
+	return lo
+}
+
+// ref: how module ctxMod refers to definition n of module m
+func ref(ctxMod, m, n string, own bool) string {
+	if m == ctxMod && !own {
 		return n
 	}
 	return m + ":" + n
 }
 
 // typeStmt renders `type <name> { ... }` for one level, written in module ctxMod
-func (r *renderer) typeStmt(ctxMod, name string, l Level, local bool) string {
+func (r *renderer) typeStmt(ctxMod, name string, l Level, lo layout) string {
 	var b strings.Builder
 	if l.Fd != 0 {
 		fmt.Fprintf(&b, " fraction-digits %d;", l.Fd)
@@ -153,11 +198,14 @@ func (r *renderer) typeStmt(ctxMod, name string, l Level, local bool) string {
 		b.WriteString(" enum " + quote(e.String()) + ";")
 	}
 	if l.IdBase.N != "" {
-		b.WriteString(" base " + ref(ctxMod, l.IdBase.M, l.IdBase.N) + ";")
+		b.WriteString(" base " + ref(ctxMod, l.IdBase.M, l.IdBase.N, lo.own) + ";")
 	}
 	for _, m := range l.Members {
-		// a member written in module b may reach its innermost typedef in module a (lay xmod), like a leaf's chain
-		b.WriteString(" " + r.chainType(ctxMod, m, m.Lay == "xmod" && ctxMod == "b", local))
+		// a member has a layout of its own (a member written in module b may reach typedefs of module a, like a
+		// leaf's chain); the scope and a forced prefix come from the statement that holds it
+		mlo := parseLay(m.Lay)
+		mlo.local, mlo.sub = lo.local, lo.own && !mlo.own
+		b.WriteString(" " + r.chainType(ctxMod, m, mlo))
 	}
 	if b.Len() == 0 {
 		return "type " + name + ";"
@@ -172,36 +220,82 @@ func defStmt(l Level) string {
 	return " default " + quote(l.Def.String()) + ";"
 }
 
-// chainType emits the typedefs of all levels but the last and returns the type
-// statement of the last level, written in module ctxMod.  With xmod the
-// innermost typedef is written in module a and referenced through the prefix.
-// Chains of one module set that start with the same levels share those
-// typedefs (the same typedef refined by several leaves).
-func (r *renderer) chainType(ctxMod string, c Chain, xmod, local bool) string {
-	name := c.K
-	for i, l := range c.Levels {
-		if i == len(c.Levels)-1 {
-			return r.typeStmt(ctxMod, name, l, local)
+// fresh gives a typedef name that is not in use in module tm: numbered per module (t1, t2 ...; the same local
+// names come up in every module) or, with uniq, over all modules (u1, u2 ...).
+func (r *renderer) fresh(tm string, uniq bool) string {
+	for {
+		var n string
+		if uniq {
+			r.cnt[""]++
+			n = fmt.Sprintf("u%d", r.cnt[""])
+		} else {
+			r.cnt[tm]++
+			n = fmt.Sprintf("t%d", r.cnt[tm])
 		}
-		tm, tlocal := ctxMod, local
-		if xmod && i == 0 {
-			tm, tlocal = "a", false
+		if !r.taken[tm][n] {
+			return n
+		}
+	}
+}
+
+// chainType emits the typedefs of all levels but the last and returns the type
+// statement of the last level, written in module ctxMod; lo says in which
+// module each typedef goes, how it is named and how the links are spelt.
+// Chains of one module set that start with the same levels (in the same
+// layout) share those typedefs (the same typedef refined by several leaves).
+func (r *renderer) chainType(ctxMod string, c Chain, lo layout) string {
+	if lo.bad {
+		return "type verif-unknown-layout-" + c.Lay + ";"
+	}
+	split := lo.split
+	if ctxMod != "b" {
+		split = 0 // module a does not import module b
+	}
+	if split > len(c.Levels)-1 {
+		split = len(c.Levels) - 1
+	}
+	pm, pn := "", c.K // the type the next level refers to: module ("" = built-in) and name
+	names := make([]string, len(c.Levels))
+	for i, l := range c.Levels {
+		wm, wlocal := ctxMod, lo.local // where level i is written
+		if i < split {
+			wm, wlocal = "a", false
+		}
+		last := i == len(c.Levels)-1
+		name := pn
+		if pm != "" {
+			name = ref(wm, pm, pn, lo.own || (last && lo.sub))
+		}
+		wlo := lo
+		wlo.local, wlo.sub = wlocal, false
+		if last {
+			wlo.own = lo.own || lo.sub
+			return r.typeStmt(ctxMod, name, l, wlo)
 		}
 		prefix, _ := json.Marshal(c.Levels[:i+1])
-		key := fmt.Sprintf("%s|%v|%v|%s|%s", tm, tlocal, xmod && i > 0, c.K, prefix)
+		key := fmt.Sprintf("%s|%v|%s|%v|%s|%s|%s", wm, wlocal, lo.naming, lo.own, name, c.K, prefix)
 		td, ok := r.memo[key]
 		if !ok {
-			// typedefs are numbered per module: a:t1 and b:t1 are different types with the same local name
-			r.cnt[tm]++
-			td = fmt.Sprintf("t%d", r.cnt[tm])
+			if r.taken[wm] == nil {
+				r.taken[wm] = map[string]bool{}
+			}
+			td = ""
+			if lo.naming == "mirror" && i >= split && 2*split-1-i >= 0 && !r.taken[wm][names[2*split-1-i]] {
+				td = names[2*split-1-i]
+			}
+			if td == "" {
+				td = r.fresh(wm, lo.naming == "uniq")
+			}
+			r.taken[wm][td] = true
 			r.memo[key] = td
-			r.typedefs[tm] = append(r.typedefs[tm], typedefStmt{
-				text:  fmt.Sprintf("typedef %s { %s%s }\n", td, r.typeStmt(tm, name, l, tlocal), defStmt(l)),
-				local: tlocal})
+			r.typedefs[wm] = append(r.typedefs[wm], typedefStmt{
+				text:  fmt.Sprintf("typedef %s { %s%s }\n", td, r.typeStmt(wm, name, l, wlo), defStmt(l)),
+				local: wlocal})
 		}
-		name = ref(ctxMod, tm, td)
+		names[i] = td
+		pm, pn = wm, td
 	}
-	return "type " + name + ";"
+	return "type " + pn + ";"
 }
 
 // ContainerOf is the container that holds the leaves of a module.
@@ -217,11 +311,49 @@ func ContainerOf(mod string) string {
 // besides its type (mandatory, config, status, if-feature) or puts the leaf somewhere else in the container
 // (choice / case, list entry, presence container, grouping + uses, refine); needsFeature: the module must define
 // feature ft.
-func leafPlace(ctx string, i int, cont, body string) (stmt string, path []string, needsFeature bool) {
+//
+// Contexts in which the leaf statement is WRITTEN somewhere else than in the container of its module mod (the leaf
+// still belongs to mod: a node belongs to the module whose statements put it into the data tree): top gives the
+// statements that go to the top level of another file (module a, or the submodule <mod>s of mod), stmt what stays in
+// the container of mod (possibly nothing).
+//
+//	uses-foreign*    grouping written in module a, used in the container of module b (mod must be b)
+//	augment          the leaf is added to container /c of module a by an augment statement of mod
+//	submodule        the leaf stands in a container of its own in the submodule of mod
+//	submodule-uses   grouping written in the submodule of mod, used in the container of mod
+func leafPlace(ctx string, i int, mod, body string) (stmt string, path []string, needsFeature bool, top map[string]string) {
+	cont := ContainerOf(mod)
 	x := fmt.Sprintf("x%d", i)
 	leaf := func(extra string) string { return fmt.Sprintf("leaf %s { %s%s }", x, body, extra) }
 	path = []string{cont, x}
+	top = map[string]string{}
+	if WrittenIn(ctx, mod) == "a" && mod != "b" {
+		// module a does not import module b: not a context for a leaf of module a (the specification does not generate it)
+		return leaf(" verif-context-needs-module-b " + quote(ctx) + ";"), path, false, top
+	}
 	switch ctx {
+	case "uses-foreign":
+		top["a"] = fmt.Sprintf("grouping gf%d { %s }", i, leaf(""))
+		stmt = fmt.Sprintf("uses a:gf%d;", i)
+	case "uses-foreign-mandatory":
+		top["a"] = fmt.Sprintf("grouping gf%d { %s }", i, leaf(" mandatory true;"))
+		stmt = fmt.Sprintf("uses a:gf%d;", i)
+	case "uses-foreign-nested":
+		top["a"] = fmt.Sprintf("grouping gi%d { %s } grouping go%d { uses gi%d; }", i, leaf(""), i, i)
+		stmt = fmt.Sprintf("uses a:go%d;", i)
+	case "uses-foreign-container":
+		top["a"] = fmt.Sprintf("grouping gc%d { container w%d { %s } }", i, i, leaf(""))
+		stmt = fmt.Sprintf("uses a:gc%d;", i)
+		path = []string{cont, fmt.Sprintf("w%d", i), x}
+	case "augment":
+		top[mod] = fmt.Sprintf("augment \"/a:c\" { %s }", leaf(""))
+		path = []string{"c", x}
+	case "submodule":
+		top[mod+"s"] = fmt.Sprintf("container s%d { %s }", i, leaf(""))
+		path = []string{fmt.Sprintf("s%d", i), x}
+	case "submodule-uses":
+		top[mod+"s"] = fmt.Sprintf("grouping gs%d { %s }", i, leaf(""))
+		stmt = fmt.Sprintf("uses gs%d;", i)
 	case "", "plain":
 		stmt = leaf("")
 	case "mandatory":
@@ -270,9 +402,21 @@ func leafPlace(ctx string, i int, cont, body string) (stmt string, path []string
 	return
 }
 
+// WrittenIn is the file (module or submodule) that holds the leaf statement - and so its type statement - of a leaf
+// of module mod in context ctx.
+func WrittenIn(ctx, mod string) string {
+	switch ctx {
+	case "uses-foreign", "uses-foreign-mandatory", "uses-foreign-nested", "uses-foreign-container":
+		return "a"
+	case "submodule", "submodule-uses":
+		return mod + "s"
+	}
+	return mod
+}
+
 // LeafPath is the data path of leaf x<i> (1-based) of chain c.
 func LeafPath(c Chain, i int) []string {
-	_, p, _ := leafPlace(c.Ctx, i, ContainerOf(c.Mod), "")
+	_, p, _, _ := leafPlace(c.Ctx, i, c.Mod, "")
 	return p
 }
 
@@ -293,21 +437,47 @@ func Render(cs []Chain) map[string]string {
 	if needB {
 		names = append(names, "b")
 	}
-	r := &renderer{typedefs: map[string][]typedefStmt{}, memo: map[string]string{}, cnt: map[string]int{}}
+	r := &renderer{typedefs: map[string][]typedefStmt{}, memo: map[string]string{}, cnt: map[string]int{}, taken: map[string]map[string]bool{}}
 	leaves := map[string][]string{}
+	tops := map[string][]string{} // file -> statements at its top level
 	feature := map[string]bool{}
+	needC := false
 	for i, c := range cs {
 		last := c.Levels[len(c.Levels)-1]
-		ts := r.chainType(c.Mod, c, c.Lay == "xmod" && c.Mod == "b", c.Lay == "local")
-		stmt, _, nf := leafPlace(c.Ctx, i+1, ContainerOf(c.Mod), ts+defStmt(last))
+		lo := parseLay(c.Lay)
+		// the type statement is written in module a (foreign grouping), in the leaf's module, or in the submodule of the
+		// leaf's module: from a submodule the definitions of its module are reached through the belongs-to prefix;
+		// typedefs are module-level definitions unless the leaf statement stands in the container of its module
+		wr := WrittenIn(c.Ctx, c.Mod)
+		tm := c.Mod
+		if wr == "a" {
+			tm = "a"
+		}
+		if wr != c.Mod {
+			lo.local = false
+		}
+		if wr == c.Mod+"s" {
+			lo.sub = true
+		}
+		ts := r.chainType(tm, c, lo)
+		stmt, path, nf, top := leafPlace(c.Ctx, i+1, c.Mod, ts+defStmt(last))
 		feature[c.Mod] = feature[c.Mod] || nf
-		leaves[c.Mod] = append(leaves[c.Mod], "    "+stmt+"\n")
+		if stmt != "" {
+			leaves[c.Mod] = append(leaves[c.Mod], "    "+stmt+"\n")
+		}
+		for f, t := range top {
+			tops[f] = append(tops[f], "  "+t+"\n")
+		}
+		needC = needC || path[0] == "c"
 	}
 	for _, m := range names {
 		var b strings.Builder
 		fmt.Fprintf(&b, "module %s {\n  namespace \"urn:%s\";\n  prefix %s;\n", m, m, m)
 		if m == "b" {
 			b.WriteString("  import a { prefix a; }\n")
+		}
+		if len(tops[m+"s"]) > 0 {
+			fmt.Fprintf(&b, "  include %ss;\n", m)
 		}
 		if feature[m] {
 			b.WriteString("  feature ft;\n")
@@ -319,7 +489,7 @@ func Render(cs []Chain) map[string]string {
 			if id.Bn == "" {
 				fmt.Fprintf(&b, "  identity %s;\n", id.N)
 			} else {
-				fmt.Fprintf(&b, "  identity %s { base %s; }\n", id.N, ref(m, id.Bm, id.Bn))
+				fmt.Fprintf(&b, "  identity %s { base %s; }\n", id.N, ref(m, id.Bm, id.Bn, false))
 			}
 		}
 		for _, td := range r.typedefs[m] {
@@ -327,7 +497,10 @@ func Render(cs []Chain) map[string]string {
 				b.WriteString("  " + td.text)
 			}
 		}
-		if len(leaves[m]) > 0 {
+		for _, t := range tops[m] {
+			b.WriteString(t)
+		}
+		if len(leaves[m]) > 0 || (m == "a" && needC) {
 			fmt.Fprintf(&b, "  container %s {\n", ContainerOf(m))
 			for _, td := range r.typedefs[m] {
 				if td.local {
@@ -341,6 +514,18 @@ func Render(cs []Chain) map[string]string {
 		}
 		b.WriteString("}\n")
 		mods[m] = b.String()
+		if len(tops[m+"s"]) > 0 {
+			var sb strings.Builder
+			fmt.Fprintf(&sb, "submodule %ss {\n  belongs-to %s { prefix %s; }\n", m, m, m)
+			if m == "b" {
+				sb.WriteString("  import a { prefix a; }\n")
+			}
+			for _, t := range tops[m+"s"] {
+				sb.WriteString(t)
+			}
+			sb.WriteString("}\n")
+			mods[m+"s"] = sb.String()
+		}
 	}
 	return mods
 }
@@ -566,6 +751,36 @@ func Observe(cs []Chain, lexemes [][]Cps, keepYang bool) []Obs {
 				pass[k] = inspect(held[k], vpaths[k], leafPath)
 			}
 			o.Passes = append(o.Passes, pass)
+		}
+	}
+	return out
+}
+
+// Try compiles hand-written modules and reports, line by line, the compile
+// verdict, the default of the leaf and what its type says to every value.
+func Try(mods map[string]string, path, vals []string) []string {
+	ms, err, pan := compileMods(mods)
+	if pan != "" {
+		return []string{"panic: " + pan}
+	}
+	if err != nil {
+		return []string{"refused: " + err.Error()}
+	}
+	leaf, why := findLeaf(ms, path)
+	if leaf == nil {
+		return []string{"compiled; " + why}
+	}
+	d, has := leaf.Default()
+	out := []string{fmt.Sprintf("compiled; default %q %v", d, has)}
+	for _, v := range vals {
+		e, p := validate(leaf.Type(), append(append([]string{}, path...), v), v)
+		switch {
+		case p != "":
+			out = append(out, fmt.Sprintf("%q: panic %s", v, p))
+		case e != nil:
+			out = append(out, fmt.Sprintf("%q: rejected", v))
+		default:
+			out = append(out, fmt.Sprintf("%q: accepted", v))
 		}
 	}
 	return out
